@@ -1,7 +1,9 @@
 """C12 - buffered commands are served fairly: one per user per cycle, nobody starves."""
 import os
+import re
 
 from nvlib import engine as E
+from nvlib import extract as X
 from nvlib.check import Prop
 
 WORDS = ["a", "b", "c", "d", "e", "f", "g", "h", "ab", "cd", "x1", "y2", "k", "q", "zz9"]
@@ -17,6 +19,11 @@ class C12(Prop):
     lean_modules_ = None
     theorems = [
         "NV.C12.flag_bits",
+        "NV.C12.cursorNext_spec",
+        "NV.C12.scanLength_spec",
+        "NV.C12.loopCalls_spec",
+        "NV.C12.grantCond_spec",
+        "NV.C12.countCond_spec",
         "NV.C12.cursor_in_bounds",
         "NV.C12.run_never_crashes",
         "NV.C12.processIO_safe",
@@ -69,6 +76,85 @@ class C12(Prop):
                    "interactive_t.text compaction / overflow rules (more than ~300 bytes per user per case) - property C13",
                    "`!` shell escapes with a pending input_to, ed, snooping, console user (slot 0), telnet negotiation bytes",
                    "a connect and a disconnect of different users inside one process_io (event order of the poller is not modelled)"]
+
+    # ---- tie: scheduling expressions regenerated from the source text ------------------------------------
+    @staticmethod
+    def _c_expr(txt, names):
+        """tiny grammar: <name> | <int> | <expr> (+|-|/|*) <int>   ->  Lean (Nat, truncated `-` and `/` as in the model)"""
+        t = txt.strip()
+        m = re.fullmatch(r"(.+?)\s*([-+/*])\s*(\d+)", t)
+        if m:
+            inner = C12._c_expr(m.group(1), names)
+            return None if inner is None else "(%s %s %s)" % (inner, m.group(2), m.group(3))
+        if re.fullmatch(r"\d+", t):
+            return t
+        return names.get(t)
+
+    def gen_extra(self, ctx, bdir):
+        comm = open(os.path.join(E.REPO, "src/comm.c"), errors="replace").read()
+        back = open(os.path.join(E.REPO, "src/backend.c"), errors="replace").read()
+        out = []
+        # (a) the rotating cursor of get_user_command: both update sites must exist and agree
+        m0 = re.search(r"static char\s*\*\s*get_user_command \(\) \{(.*?)\n\}", comm, re.S)
+        if not m0:
+            raise X.TieBroken("guard:get_user_command", "cannot locate get_user_command() in src/comm.c")
+        body = m0.group(1)
+        sites = re.findall(r"if \(s_next_user(--|\+\+) == (\d+)\)\s*s_next_user = ([^;]+);", body)
+        if len(sites) != 2 or len(set(sites)) != 1:
+            raise X.TieBroken("guard:s_next_user update", "expected two identical cursor updates in get_user_command, found %r" % (sites,))
+        if len(re.findall(r"s_next_user\s*(?:=[^=]|--|\+\+|[-+]=)", body)) != 5:   # init + 2 x (step + wrap)
+            raise X.TieBroken("guard:s_next_user update", "get_user_command changes s_next_user at other places as well")
+        op, k, wrap = sites[0]
+        wexpr = self._c_expr(wrap, {"max_users": "maxUsers"})
+        if wexpr is None:
+            raise X.TieBroken("guard:s_next_user wrap", "wrap expression %r leaves the grammar" % wrap)
+        stepexpr = "c - 1" if op == "--" else "c + 1"
+        out.append("/-- C (get_user_command, both sites): `if (s_next_user%s == %s) s_next_user = %s;` -/\n"
+                   "def cursorNext (c maxUsers : Nat) : Nat := if c = %s then %s else %s" % (op, k, wrap.strip(), k, wexpr, stepexpr))
+        m1 = re.search(r"for \(i = (\d+); i < ([a-z_]+); i\+\+\)\s*\{\s*ip = all_users\[s_next_user\];", body)
+        if not m1 or m1.group(1) != "0":
+            raise X.TieBroken("guard:scan length", "cannot locate the scan loop header of get_user_command")
+        lexpr = self._c_expr(m1.group(2), {"max_users": "maxUsers"})
+        if lexpr is None:
+            raise X.TieBroken("guard:scan length", "scan loop bound %r leaves the grammar" % m1.group(2))
+        out.append("/-- C (get_user_command): `for (i = 0; i < %s; i++)` - iterations of one scan -/\n"
+                   "def scanLength (maxUsers : Nat) : Nat := %s" % (m1.group(2), lexpr))
+        # the turn is tested and consumed where the command is picked, and only there
+        if len(re.findall(r"if \(ip->iflags & HAS_CMD_TURN\)\s*\{\s*ip->iflags &= ~HAS_CMD_TURN;[^{}]*break;[^{}]*\}", body)) != 1 \
+                or len(re.findall(r"HAS_CMD_TURN", body)) != 2:
+            raise X.TieBroken("guard:turn consumed", "get_user_command no longer tests and clears HAS_CMD_TURN exactly where it picks the command")
+        # (b) the bounded command loop of backend()
+        m2 = re.findall(r"for \(i = (\d+); process_user_command \(\) && i < ([^;]+); i\+\+\)\s*;", back)
+        if len(m2) != 1 or m2[0][0] != "0":
+            raise X.TieBroken("guard:command loop", "cannot locate `for (i = 0; process_user_command () && i < B; i++);` in backend()")
+        bexpr = self._c_expr(m2[0][1], {"connected_users": "connectedUsers", "max_users": "maxUsers"})
+        if bexpr is None:
+            raise X.TieBroken("guard:command loop", "loop bound %r leaves the grammar" % m2[0][1])
+        out.append("/-- C (backend): `for (i = 0; process_user_command () && i < %s; i++);` - the call is made before the bound is\n"
+                   "    tested, so `bound + 1` calls are allowed -/\n"
+                   "def loopCalls (connectedUsers maxUsers : Nat) : Nat := %s + 1" % (m2[0][1].strip(), bexpr))
+        # (c) the turn-grant loop of backend()
+        m3 = re.search(r"int connected_users = 0;\s*for \(i = (\d+); i < ([a-z_]+); i\+\+\)\n( *)\{(.*?)\n\3\}\n", back, re.S)
+        if not m3 or m3.group(1) != "0" or m3.group(2) != "max_users":
+            raise X.TieBroken("guard:grant loop", "cannot locate the turn-grant loop `for (i = 0; i < max_users; i++)` in backend()")
+        gbody = m3.group(4)
+        m4 = re.match(r"\s*if \((!?)all_users\[i\]\)\s*\{(.*)\}\s*$", gbody, re.S)
+        if not m4:
+            raise X.TieBroken("guard:grant loop", "grant loop body is not `if (all_users[i]) { ... }`")
+        inner = m4.group(2)
+        # statements executed unconditionally inside the if: cut nested blocks
+        flat = re.sub(r"\{[^{}]*\}", "", inner)
+        flat = re.sub(r"if \([^;{]*\)\s*;", "", flat)
+        if re.search(r"\b(break|continue|return|goto)\b", gbody):
+            raise X.TieBroken("guard:grant loop", "grant loop contains a jump statement")
+        grants = bool(re.search(r"all_users\[i\]->iflags \|= HAS_CMD_TURN;", flat))
+        counts = bool(re.search(r"connected_users\+\+;", flat))
+        neg = "!" if m4.group(1) else ""
+        out.append("/-- C (backend, grant loop over all slots): `if (%sall_users[i]) { ... iflags |= HAS_CMD_TURN ... }` -/\n"
+                   "def grantCond (occupied : Bool) : Bool := %s(%soccupied)" % (neg, "" if grants else "false && ", neg))
+        out.append("/-- C (backend, grant loop): `connected_users++` under the same condition -/\n"
+                   "def countCond (occupied : Bool) : Bool := %s(%soccupied)" % ("" if counts else "false && ", neg))
+        return "\n".join(out)
 
     def prepare(self, ctx):
         self.exe = E.compile_harness("c12", [os.path.join(E.VERIF, "harness/c12/c12.c")])
